@@ -11,8 +11,8 @@ static void vb_hostile_read(struct AbstractFile *p, char *s, int64_t n)
     if (!(n >= 0 && (n == 0 || __CPROVER_w_ok(s, n)))) { __CPROVER_assume(0); }
     if (n > 0) __CPROVER_havoc_slice(s, (size_t)n);
     /* g is set directly (not g += fileSize - g): add/subtract cancellation is what SAT solvers cannot see */
-    if (p->g + n > p->fileSize) { p->gcount = p->fileSize - p->g; p->rdstate = IOS_eofbit | IOS_failbit; p->g = p->fileSize; }
-    else { p->gcount = n; p->rdstate = IOS_goodbit; p->g = p->g + n; }
+    if (p->g + n > p->fileSize) { p->gcount = p->fileSize - p->g; p->rdstate = IOS_eofbit | IOS_failbit; p->g = p->fileSize; p->hdr_end = 1; /* ghost: a read was cut short */ }
+    else { p->gcount = n; if (n > 0) p->rdstate = IOS_goodbit; p->g = p->g + n; }      /* a zero-length read leaves the state as it is */
     __CPROVER_assert(p->p <= p->g && p->g <= p->fileSize, "stream invariant object start <= tellg <= declared end");
     __CPROVER_assume(p->p <= p->g && p->g <= p->fileSize);
 }
